@@ -137,6 +137,7 @@ class Ctx(object):
         self.deadline = None
         self.notes = {}
         self.exhaustive = {}
+        self.keysets = {}         # name -> set of hashable keys (e.g. abstract states visited); merged as a union over shards
 
     # -- registration of cases ------------------------------------------------------------------------------------
     def case(self, dig, nontrivial=True, cls=None, sample=None):
@@ -191,6 +192,9 @@ class Ctx(object):
     def observe(self, key, n=1):
         self.observations[key] = self.observations.get(key, 0) + n
 
+    def keyset(self, name):
+        return self.keysets.setdefault(name, set())
+
     def note(self, key, value):
         self.notes[key] = jsonable(value)
 
@@ -209,6 +213,7 @@ class Ctx(object):
             'digests': sorted(self.digests), 'distinct_by_construction': self.distinct_by_construction,
             'cases': self.cases, 'wall_s': time.time() - self.t0, 'notes': self.notes,
             'exhaustive': self.exhaustive,
+            'keysets': {k: sorted(repr(x) for x in v) for k, v in self.keysets.items()},
         }
 
 
